@@ -9,7 +9,8 @@ package main
 // file system; the same abstract tree is sent to the model. Compared: see Corr/PIPE.v.
 //
 // Domain restrictions of the generator (each is a stated scope limit of the model, design.d/PIPE.md):
-//   no patches / replacements / vars / components / configurations / helm / plugins,
+//   patches: only strategic-merge entries (pipe_patches.go; no JSON6902, no patchesStrategicMerge / patchesJson6902,
+//   no allowNameChange / allowKindChange), no replacements / vars / components / configurations / helm / plugins,
 //   generators with literal, env-file and file sources (all behaviours, generatorOptions, binaryData), no immutable;
 //   no `kind: List`, no empty documents, no anchors, no comments,
 //   no internal.config.kubernetes.io annotations in inputs, no ',' in names (PrevIds panic, C12 finding).
@@ -39,7 +40,7 @@ import (
 
 func init() {
 	register("PIPE", propDef{
-		header: "From KV Require Import Corr.PIPE.\nFrom KV Require Labels Res.Replica Res.Image.\nFrom KV Require Gen.LegacyOrder.\n" +
+		header: "From KV Require Import Corr.PIPE.\nFrom KV Require Labels Res.Replica Res.Image Res.Selector.\nFrom KV Require Import Corr.SchemaTable.\nFrom KV Require Gen.LegacyOrder.\n" +
 			"Open Scope string_scope.\n",
 		caseType:   "casePIPE",
 		mismatchFn: "mismatchesPIPE",
@@ -142,6 +143,7 @@ type pipeDir struct {
 	GenOpts      *pipeGenOpts      `json:"genOpts,omitempty"`
 	Replicas     []pipeReplica     `json:"replicas,omitempty"`
 	Images       []pipeImage       `json:"images,omitempty"`
+	Patches      []pipePatch       `json:"patches,omitempty"`
 	Ents         []*pipeEnt        `json:"ents"`
 	parent       *pipeDir
 	depth        int
@@ -159,6 +161,7 @@ type pipeCase struct {
 	Twins bool              `json:"twins"`
 	Merges int              `json:"merges"`
 	Locals int              `json:"locals"`
+	Patches int `json:"patches"`
 }
 
 // ---------------------------------------------------------------- catalogue
@@ -943,6 +946,9 @@ func pipeGenCase(rng *Rng, rules []krusty.VerifC03Rule) *pipeCase {
 		}
 	}
 	pc.Locals = g.locals
+	if rng.Chance(55) {
+		pc.Patches = g.genPatches(rng)
+	}
 	pc.Root = "/w/" + top.Name
 	pipeRender(pc)
 	return pc
@@ -1026,6 +1032,16 @@ func pipeRenderDir(pc *pipeCase, d *pipeDir, path string, top bool) {
 	}
 	if d.Suffix != "" {
 		k["nameSuffix"] = d.Suffix
+	}
+	if len(d.Patches) > 0 {
+		var pl []interface{}
+		for _, p := range d.Patches {
+			pl = append(pl, pipePatchYaml(p))
+			if !p.Inline {
+				pc.Files[path+"/"+p.File] = strings.Join(p.Docs, "---\n")
+			}
+		}
+		k["patches"] = pl
 	}
 	if len(d.CommonLabels) > 0 {
 		k["commonLabels"] = pipeStrMap(d.CommonLabels)
@@ -1231,7 +1247,7 @@ func pipeCoqGen(s pipeGenSpec) string {
 
 var customFields bool // set by pipeCoqDir when a labels entry carries custom fields (distribution only)
 
-func pipeCoqDir(d *pipeDir, vals map[string]bool) (string, bool) {
+func pipeCoqDir(d *pipeDir, vals map[string]bool, nodes *[]*kyaml.RNode) (string, bool) {
 	var labels, cm, sec, ents []string
 	note := func(m map[string]string) {
 		for k, v := range m {
@@ -1276,10 +1292,11 @@ func pipeCoqDir(d *pipeDir, vals map[string]bool) (string, bool) {
 					return "", false
 				}
 				docs = append(docs, t)
+				*nodes = append(*nodes, rn)
 			}
 			ents = append(ents, "(PFile ["+strings.Join(docs, "; ")+"])")
 		} else {
-			t, ok := pipeCoqDir(e.Dir, vals)
+			t, ok := pipeCoqDir(e.Dir, vals, nodes)
 			if !ok {
 				return "", false
 			}
@@ -1300,9 +1317,13 @@ func pipeCoqDir(d *pipeDir, vals map[string]bool) (string, bool) {
 	for _, im := range d.Images {
 		ims = append(ims, fmt.Sprintf("(Image.mkImage %s %s %s %s %s)", coqStr(im.Name), coqStr(im.NewName), coqStr(im.TagSuffix), coqStr(im.NewTag), coqStr(im.Digest)))
 	}
-	dirs := fmt.Sprintf("(mkPDirsX %s %s %s [%s] %s %s [%s] [%s] %s [%s] [%s])", coqStr(d.Ns), coqStr(d.Prefix), coqStr(d.Suffix),
+	pts, ok := pipeCoqPatches(d, vals, nodes)
+	if !ok {
+		return "", false
+	}
+	dirs := fmt.Sprintf("(mkPDirsP %s %s %s [%s] %s %s [%s] [%s] %s [%s] [%s] [%s])", coqStr(d.Ns), coqStr(d.Prefix), coqStr(d.Suffix),
 		strings.Join(labels, "; "), pipeCoqPairs(d.CommonLabels), pipeCoqPairs(d.CommonAnnos),
-		strings.Join(cm, "; "), strings.Join(sec, "; "), gopts, strings.Join(rps, "; "), strings.Join(ims, "; "))
+		strings.Join(cm, "; "), strings.Join(sec, "; "), gopts, strings.Join(rps, "; "), strings.Join(ims, "; "), pts)
 	return fmt.Sprintf("(PDir %s %s [%s])", coqStr(d.Name), dirs, strings.Join(ents, "; ")), true
 }
 
@@ -1320,7 +1341,8 @@ func pipeCoqSort(pc *pipeCase) string {
 
 func pipeCaseTerm(pc *pipeCase, o pipeOutcome) (string, bool) {
 	vals := map[string]bool{}
-	tree, ok := pipeCoqDir(pc.Top, vals)
+	var nodes []*kyaml.RNode
+	tree, ok := pipeCoqDir(pc.Top, vals, &nodes)
 	if !ok {
 		return "", false
 	}
@@ -1341,7 +1363,22 @@ func pipeCaseTerm(pc *pipeCase, o pipeOutcome) (string, bool) {
 			ns = append(ns, v)
 		}
 	}
-	return fmt.Sprintf("(CPipe %s %s %s %s [%s])", coqStrList(ns), pipeCoqSort(pc), tree, o.Cls, strings.Join(outs, "; ")), true
+	sch := "rn"
+	if pc.Patches > 0 {
+		// the projection of the openapi schema on every path of the inputs, the patches and the outputs (as in C04);
+		// a patch copy carries the apiVersion of its target: one more root per (patch kind, apiVersion) pair
+		if o.Cls == ClsOk {
+			for _, r := range o.M.Resources() {
+				nodes = append(nodes, &r.RNode)
+			}
+		}
+		nodes = append(nodes, pipePatchRoots(pc.Top, nodes)...)
+		sch = dumpSchemaTree(nodes...)
+		if multiKeyDirective {
+			return "", false
+		}
+	}
+	return fmt.Sprintf("(let sch := %s in CPipe %s %s %s %s [%s])", sch, coqStrList(ns), pipeCoqSort(pc), tree, o.Cls, strings.Join(outs, "; ")), true
 }
 
 // ---------------------------------------------------------------- law oracles on the implementation
@@ -1410,7 +1447,8 @@ func pipeOracles(pc *pipeCase, o pipeOutcome) [][3]string {
 	}
 	for id, n := range want {
 		// documents marked local-config may be dropped (IgnoreLocal): at most once then, exactly once otherwise
-		if (pc.Locals == 0 && got[id] != n) || got[id] > n {
+		// ... and so may what a patch deletes (the resource, or its annotations)
+		if (pc.Locals == 0 && pc.Patches == 0 && got[id] != n) || got[id] > n {
 			out = append(out, [3]string{"identity_multiset", "PIPE/identity-multiset", fmt.Sprintf("tracer %s: %d inputs, %d outputs", id, n, got[id])})
 			break
 		}
@@ -1462,6 +1500,7 @@ func runPIPE(r *Run, rng *Rng, tier string) error {
 		pc := pipeGenCase(rng.Fork(), rules)
 		pipeOne(r, pc, debug, false)
 	}
+	r.header += internHeader() // strings of the schema projections (dumpSchemaTree)
 	return nil
 }
 
@@ -1501,6 +1540,9 @@ func pipeCountKinds(r *Run, d *pipeDir, depth int, maxDepth *int, ndirs *int) {
 }
 
 func pipeOne(r *Run, pc *pipeCase, debug bool, corpus bool) {
+	if pc.Patches == 0 {
+		pc.Patches = pipeCountPatches(pc.Top)
+	}
 	o := pipeRun(pc.Files, pc.Root)
 	md, nd := 0, 0
 	pipeCountKinds(r, pc.Top, 1, &md, &nd)
